@@ -503,6 +503,25 @@ def check_kl(ctx, case):
     if err > 1e-6 * (1 + float(np.max(np.abs(gfd)))):
         return ctx.fail("kl.grad_vs_finite_difference", "KL.grad = %s, finite differences of KL.evaluate = %s (max diff %.3g)" % (
             np.round(g, 9).tolist(), np.round(gfd, 9).tolist(), err))
+    # a training step as users write it: the parameter array is updated IN PLACE and handed to the same objects again; the answers must be
+    # those of fresh objects given a fresh copy of the updated values
+    try:
+        t = theta.copy()
+        kl.evaluate(t)
+        vg.mean_photons_by_mode(t)
+        t -= 0.05 * g
+        t[0] += 0.01
+        v1, n1, g1 = float(kl.evaluate(t)), np.asarray(vg.mean_photons_by_mode(t), float), np.asarray(kl.grad(t), float)
+        vg2 = param.VGBS(A, case["n_mean"], make_embedding(case), threshold=False)
+        kl2 = cost.KL(data, vg2)
+        t2 = t.copy()
+        v2, n2, g2 = float(kl2.evaluate(t2)), np.asarray(vg2.mean_photons_by_mode(t2), float), np.asarray(kl2.grad(t2), float)
+    except Exception as exc:  # pylint: disable=broad-except
+        return ctx.crash(exc, "kl.inplace_step")
+    ctx.label("inplace_parameter_update")
+    if abs(v1 - v2) > 1e-9 * (1 + abs(v2)) or float(np.max(np.abs(n1 - n2))) > 1e-9 * (1 + float(np.max(np.abs(n2)))) or float(np.max(np.abs(g1 - g2))) > 1e-8 * (1 + float(np.max(np.abs(g2)))):
+        return ctx.fail("kl.stale_after_inplace_update", "after an in-place update of the parameter array: evaluate %.10g vs %.10g (fresh objects), mean photons differ by %.3g, grad by %.3g" % (
+            v1, v2, float(np.max(np.abs(n1 - n2))), float(np.max(np.abs(g1 - g2)))))
     return None
 
 
